@@ -332,6 +332,37 @@ func runPredRow(r predRow, emit func(mode string, negated bool, concrete string,
 			v := true
 			emit("validate", false, "true", len(sch.Validate(&v)) == 0)
 		}
+	case "containstype":
+		var sch *z.SliceSchema
+		var vInts = []int{1, 2}
+		var vStrs = []string{"a", "b"}
+		var vFloats = []float64{1, 2.5}
+		var val any
+		switch r.Param {
+		case "int:2":
+			sch, val = z.Slice(z.Int()).Contains(2), &vInts
+		case "int:7":
+			sch, val = z.Slice(z.Int()).Contains(7), &vInts
+		case "float:1.5":
+			sch, val = z.Slice(z.Int()).Contains(1.5), &vInts
+		case "float:2":
+			sch, val = z.Slice(z.Int()).Contains(2.0), &vInts
+		case "int64:2":
+			sch, val = z.Slice(z.Int()).Contains(int64(2)), &vInts
+		case "uint8:1":
+			sch, val = z.Slice(z.Int()).Contains(uint8(1)), &vInts
+		case "str-in-strs:a":
+			sch, val = z.Slice(z.String()).Contains("a"), &vStrs
+		case "rune-in-strs:a":
+			sch, val = z.Slice(z.String()).Contains('a'), &vStrs
+		case "int-in-strs:97":
+			sch, val = z.Slice(z.String()).Contains(97), &vStrs
+		case "bytes-in-strs:a":
+			sch, val = z.Slice(z.String()).Contains([]byte("a")), &vStrs
+		case "int-in-floats:1":
+			sch, val = z.Slice(z.Float64()).Contains(1), &vFloats
+		}
+		emit("validate", false, r.Param, len(sch.Validate(val)) == 0)
 	case "uuidsweep":
 		members := map[string][]string{"digit": {"0", "9", "5"}, "hex-lower": {"a", "f", "c"}, "hex-upper": {"A", "F", "D"}, "g-z": {"g", "z"}, "G-Z": {"G", "Z"},
 			"ctrl-low": {"\x00", "\x01", "\x0f"}, "ctrl-10-19": {"\x10", "\x11", "\x16", "\x19"}, "space": {" "}, "punct": {"/", ":", "@", "`", "{", "_"},
